@@ -23,6 +23,17 @@ CHECKS = {
         note="Line granularity; sqlite transactions are atomic steps (sqlite's own locking is trusted); operation alphabet and thread counts are bounded.",
         design_ref="DESIGN.md section 3 C15",
     ),
+    "C17": dict(
+        engine="S",
+        technique="exhaustive enumeration of socket-behaviour scripts (fault sequences) against the real receive_data/send_data with a stream-cursor reference model",
+        text="All scripts up to length 5 (quick) / 7 (thorough) of per-call socket answers (deliver 1/2/half/n-1/all, every retryable errno, fatal errnos, "
+             "timeout, EOF; partial writes 0/1/2/half/n-1/all) followed by faithful delivery, for 8 request sizes incl. the 60000-byte chunk boundary, streams "
+             "ending early/exactly/late, MSG_WAITALL on/off, ssl-like sockets, blocking and timeout send mode, three buffer types. Oracle: returns exactly the "
+             "next n bytes and consumes exactly n, or raises the exception class the first terminal event dictates with partialData = bytes consumed; the "
+             "fake peer receives the buffer exactly once in order, or an exception is raised after a clean prefix.",
+        note="The socket is a scripted object (no kernel); errno set is the Linux one; sleep between retries is virtual.",
+        design_ref="DESIGN.md section 3 C17",
+    ),
 }
 
 NOT_YET = {}
